@@ -13,22 +13,27 @@ package syncmap
 // snapshot taken under the lock (their loop bodies may call Set and Delete).
 //@ field map_map_K_ guarded_by mu
 
-//@ props C15 C14 C16
+// The certificate store (C11) and the session store rely on every operation returning with
+// the map's lock released, whatever the map holds at that moment.
+//@ props C15 C14 C16 C11
 //@ func SyncMap.Get
 //@   nopanic
 //@   inline
+//@   ghost balanced-also C11
 //@   requires sm.ma != nil
 
-//@ props C15 C14 C16
+//@ props C15 C14 C16 C11
 //@ func SyncMap.Set
 //@   nopanic
 //@   inline
+//@   ghost balanced-also C11
 //@   requires sm.ma != nil
 
-//@ props C15 C14 C16
+//@ props C15 C14 C16 C11
 //@ func SyncMap.Delete
 //@   nopanic
 //@   inline
+//@   ghost balanced-also C11
 //@   requires sm.ma != nil
 
 //@ props C15 C14 C16
